@@ -294,6 +294,14 @@ def _bounded_fallback(modname, clsname, prop, tier):
         r['linear_histories'] = 'call sequences over 4 keys up to length %d (with load/clear/dump up to 5) on one wrapper' % (7 if tier == 'thorough' else 6)
         if v is not None and WE.replay_history(v):
             r['violations'].append(v)
+        elif prop in ('C01', 'C05', 'C07', 'C02'):
+            # ... and with a user function that calls its own decorated self (memoised recursion), for the clauses claimed under
+            # re-entrancy: result, size bound, nothing lost
+            only_r = {'C01': {'result.equals_function'}, 'C05': {'size.bound'}, 'C07': {'evicted_entries_are_archived'},
+                      'C02': {'evicted_entries_are_archived'}}[prop]
+            v = WE.linear_search(modname, clsname, only_r, depth=4, budget_s=15.0, recursive=True)
+            if v is not None and WE.replay_history(v):
+                r['violations'].append(v)
     except Exception:
         return {'error': traceback.format_exc()[-800:]}
     r['scope'] = ('real %s.%s; keys from a universe of 3 (+1 unhashable, +1 raising, +1 raising key generation); maxsize in {1,2}; '
